@@ -741,6 +741,12 @@ class C23(HistoryProfile):
       if isinstance(dec, list):
         forms.append(tuple(dec))
       exps = [objtypes.encode_object(col_obj.convert(f)) for f in forms]
+      # What any write into a column of the new type goes through when it is stored (reference
+      # columns re-read a serialised list of row ids left by an earlier type change): this is
+      # the column's storage rule, not part of the conversion.
+      clean = getattr(col_obj, "_clean_up_value", None)
+      if clean is not None:
+        exps += [objtypes.encode_object(clean(col_obj.convert(f))) for f in forms]
       got = post_cells.get(r)
       if not any(eq.norm(got) == eq.norm(e) for e in exps):
         raise vio(sim, "converted-cell", "%s[%s].%s: %r (%s) -> %s gives %r, conversion of the stored "
